@@ -152,15 +152,55 @@ def run(ctx):
             if vx == "good" and xdata is not None and (len(xdata) != hdr["length"] or crc16(xdata) != hdr["crc"]):
                 viol.append({"property": PID, "kind": "melted-file-does-not-match", "archive_hex": a.hex()[:200000],
                              "file_len": len(xdata), "recorded_length": hdr["length"], "sig": "melted:" + tag})
-        cov = {"evaluations": 3 * len(cases), "distinct_nontrivial": nontriv,
+        # ---- the library's own return values (lha_reader_check / lha_reader_extract), also when the member has been
+        #      read, checked or extracted before: a success must still mean "the bytes written / checked match"
+        import test_rdr as T, itertools
+        CDIR = common.CDIR
+        drv = cb.compile("drv_rdr", [os.path.join(CDIR, "drv_rdr.c")] + cb.lib_sources(), extra=["-I" + CDIR], sanitize=True)
+        pool = T.Pool(cb, [drv], rnd)
+        lib_lines = []
+        seqs = [["n", "x"], ["n", "c"], ["n", "c", "x"], ["n", "r5", "x"], ["n", "r100000", "x"], ["n", "x", "x"], ["n", "c", "c"],
+                ["n", "r7", "c"], ["n", "x", "n", "c", "x"], ["n", "c", "xf" + b"again".hex()]]
+        arcs = [a for nm, a in T.small_archives(pool, rnd) if nm in ("lh0", "lh5+lh0", "badcrc", "badlen", "truncated", "mac")]
+        for a in arcs:
+            for sq in seqs:
+                lib_lines.append(T.case(rnd.choice(T.KINDS), "eod", a, sq))
+        for _ in range(60 if ctx.quick else 2000):
+            a, ms = T.random_archive(pool, rnd)
+            ops = []
+            for _m in range(min(len(ms) + 1, 6)):
+                ops += ["n"] + [rnd.choice(["c", "x", "r5", "r100000", "cm", "xm"]) for _ in range(rnd.choice([1, 2, 2, 3]))]
+            lib_lines.append(T.case(rnd.choice(T.KINDS), rnd.choice(T.POLICIES), a, ops[:40]))
+        if common.sh([drv, "--probe"])[1].strip() != "chroot":
+            lib_lines = [l for l in lib_lines if T.plain_ok(l)]
+        lco = common.run_lines_parallel([drv], lib_lines)
+        lmo = common.run_lines_parallel([ctx.model], lib_lines)
+        init = common.run_lines_parallel([drv], [T.case("cbskip", "eod", b"\0", [])])[0]
+        orc = T.Oracles(T.parse_dump(init.split("|", 1)[1]))
+        lib_mism = []
+        for l, c, m in zip(lib_lines, lco, lmo):
+            dist["library:" + l.split()[5].replace(",", "")[:6]] += 1
+            if "CHILD-FAILED" in c or "|" not in c:
+                continue
+            before = len(orc.bad_crc)
+            orc.look(l, c)
+            if len(orc.bad_crc) > before:
+                viol.append({"property": PID, "kind": "library-extract-succeeds-with-wrong-bytes", "case": l,
+                             "ops": l.split()[5], "observed": c.split("|")[0][:600], "sig": "library-verdict"})
+            elif c != m and not (m.endswith("FAULT 1411") or m.endswith("FAULT 1414")):
+                lib_mism.append({"case": l[:6000], "c": c.split("|")[0][-500:], "model": m.split("|")[0][-500:]})
+        cov = {"evaluations": 3 * len(cases) + len(lib_lines), "distinct_nontrivial": nontriv,
                "rule": "single-member archives: stored members of many sizes (valid; wrong CRC; length +-1; the archive cut at every "
                        "offset of the data, densely near the end; for members <= 64 bytes a burst of width 1..16 at every bit offset, "
                        "LSB-first numbering) with the expected verdict computed by the harness; members of every method from the "
                        "repository (valid, wrong CRC/length, bit flips, truncations near the end) with the expected verdict computed from "
                        "the bytes the tool's own 'pq2' delivers; compared with the Tested/CRC error and Melted/Failure lines, the exit "
-                       "status of t and x, and the extracted file. non-trivial = case whose header was reached",
+                       "status of t and x, and the extracted file; library level: lha_reader_check / lha_reader_extract through the reader driver on "
+                       "small and generated archives with op sequences that also repeat operations on a member (check then extract, "
+                       "read then extract, extract twice): every extract that returns 1 must have written a file with the header's "
+                       "length and CRC, and the results must equal the reader model's. non-trivial = case whose header was reached",
                "distribution": dict(dist), "samples": [cases[0][0].hex()[:120], cases[-1][0].hex()[:120]]}
-        return {"violations": viol[:10], "mismatches": [], "coverage": cov,
+        return {"violations": viol[:10], "mismatches": lib_mism[:10], "coverage": cov,
                 "search_note": "direct oracle: verdict vs independently measured length and CRC-16"}
     finally:
         if os.geteuid() == 0:
